@@ -77,6 +77,15 @@ def checkpoint(acc, W, A, model, w, where):
             acc.count("keys_offered")
             if len(kid) != 3 or len(val) != 32:
                 ok = bad("upload-key-format", "offered key id/value have lengths %d/%d" % (len(kid), len(val)))
+            if i in model.offered and model.offered[i] != val and i in model.consumed:
+                # the id is free again: ids continue after the highest STORED id, and the key this id named was used up by a
+                # first message (removed from the store, gone from the server). The statement speaks of the key an id maps to
+                # while it is on offer: a new key under the id starts a new life
+                acc.count("ids_reused_after_consumption")
+                model.consumed.discard(i)
+                model.confirmed.discard(i)
+                model.handed_out.pop(i, None)
+                del model.offered[i]
             if i in model.offered:
                 acc.count("reoffers_seen")
                 if model.offered[i] != val:
